@@ -18,8 +18,8 @@ use crate::{EXIT_CONFIG_ERROR, EXIT_SUCCESS};
 
 use super::check_args::{apply_cli_overrides, validate_and_resolve_paths};
 use super::check_baseline_ops::{
-    EvaluatedPaths, apply_baseline_comparison, handle_baseline_ratchet, load_baseline,
-    load_baseline_optional, update_baseline_from_results,
+    EvaluatedPaths, apply_baseline_comparison, baseline_key, handle_baseline_ratchet,
+    load_baseline, load_baseline_optional, update_baseline_from_results,
 };
 use super::check_exit::determine_exit_code;
 use super::check_output::{
@@ -345,7 +345,7 @@ pub fn run_check_with_context(opts: &CheckOptions<'_>) -> crate::Result<i32> {
             .iter()
             .map(CheckResult::path)
             .chain(checked_dirs.into_iter().map(PathBuf::as_path))
-            .map(|p| crate::output::path::path_key(&p.to_string_lossy()))
+            .filter_map(baseline_key)
             .collect(),
         scanned: scan_result.is_some(),
     };
